@@ -319,7 +319,16 @@ func ruleNetworkSelection(c *Ctx, rule string) {
 				}
 			}
 		}
-		c.ob(rule, fn, "the first network gets the interface kubelet named", nil, ok, "idx == 0 returns the argIf parameter")
+		// and nothing else is returned unless idx != 0 was established (the test comes first)
+		if ok {
+			notFirst := []edge{{first[0].from, 1 - first[0].succ}}
+			for _, ret := range returns(fn) {
+				if !sameParam(retVal(ret, 0), fn.Params[2]) && !guardedBy(fn, ret, notFirst) {
+					ok = false
+				}
+			}
+		}
+		c.ob(rule, fn, "the first network gets the interface kubelet named", nil, ok, "idx == 0 returns the argIf parameter, and every other return lies behind the idx != 0 edge")
 		named := guardEdges(fn, predNeq(func(v ssa.Value) bool { return sameParam(v, fn.Params[0]) }, func(v ssa.Value) bool { s, ok := constStringVal(v); return ok && s == "" }))
 		ok2 := len(named) == 1
 		if ok2 {
